@@ -25,6 +25,7 @@ RULE = (
     "case = (plan, stages, injections). Sweep: pause+resume and suspend+release at every callback boundary of the step "
     "plans of the corpus; Hypothesis: generated checkpointed plans with 1-3 interruptions. Non-trivial: the replay "
     "after at least one interruption was non-empty and a run was open. Distinct = canonical JSON."
+    ' Also pairs of interruptions inside one checkpoint interval (second request j callbacks into the resume; pause/pause, pause/suspend, suspend/pause).'
 )
 ASSUMPTIONS = ["deterministic fake devices", "requests arrive at boundaries between event-loop callbacks"]
 
